@@ -664,3 +664,38 @@ class FilterDimensions(Contract):
             ("dimension", s1.dimension == s0.dimension - (size(v0.vals[nm]) - n_kept)),
             ("normalize-kept", unchanged_dict(N(s1), N(s0))),
         ] + caches_invalidated(s0, s1)
+
+
+# ---------------------------------------------------------------------------- integer-normalisation toggle
+@register
+class EnableIntegerNormalizationSetter(Contract):
+    """Toggling the flag recomputes the policies of the integer variables and drops every cache that depends on them."""
+
+    targets = (DS + ".enable_integer_variables_normalization",)
+    setter = True
+    prop = ("C02",)
+    params = {"value": TBool}
+    modifies = ("self",)
+    loops = {0: LoopSpec(anchor="self._variables.items()", modifies=("self.normalize#vals",), inv=lambda c, k: [], local_types={"name": TStr, "variable": VAR})}
+
+    def requires(self, c):
+        return wf(c.old.self)
+
+    def axioms(self, c):
+        return derived_wf(c.old.self)
+
+    def ensures(self, c):
+        s0, s1 = c.old.self, c.new.self
+        changed = c.old.value != s0._DesignSpace__normalize_integer_variables
+        return wf(s1) + [
+            ("flag-set", s1._DesignSpace__normalize_integer_variables == c.old.value),
+            ("variables-kept", unchanged_dict(V(s1), V(s0))),
+            ("indices-kept", unchanged_dict(I(s1), I(s0))),
+            ("values-kept", unchanged_dict(CV(s1), CV(s0))),
+            ("dimension", s1.dimension == s0.dimension),
+            ("policies-keep-their-order", same_key_order(N(s1), N(s0))),
+            ("norm-data-dropped-on-change", z3.Implies(changed, z3.Not(s1._DesignSpace__norm_data_is_computed))),
+            # the normalised current value depends on the policies: it must not survive a change of the flag
+            ("normalized-current-value-dropped-on-change", z3.Implies(changed, z3.And(s1._DesignSpace__norm_current_value.n == 0,
+                                                                                     G.nd_len(s1._DesignSpace__norm_current_value_array) == 0))),
+        ]
